@@ -246,7 +246,13 @@ def session_case(spec):
     if abs(db[-1] - final_eq) > 1e-9 * max(1.0, abs(final_eq)):
         vios.append((f'C16:equity:{kind}:last-sample-not-final-portfolio-value', f'{db[-1]!r} vs {final_eq!r}'))
     m = r['result']['metrics']
-    if fin['trades']:
+    flipped = [t for t in fin['trades'] if t['pnl'] != t['pnl'] or not t['qty']]
+    if flipped:
+        # a position flip (resting entry orders of the other side left over by should_cancel_entry = no) leaves a trade without entries
+        # (quantity 0, NaN entry price and PnL) in the log: C06's known finding. The trade-list identities say nothing about such a list
+        # (every sum is NaN); the equity samples above were still judged.
+        flags.add('excluded:trade-log-of-a-flipped-position(C06-known-finding)')
+    elif fin['trades']:
         pnls = [t['pnl'] for t in fin['trades']]
         want = ref_metrics(pnls, [t['fee'] for t in fin['trades']], [t['type'] for t in fin['trades']],
                            [t['holding_period'] for t in fin['trades']], fin['starting_balance'], db)
